@@ -125,6 +125,69 @@ def c05_problem(name, ns, n, acts):
     return None
 
 
+# the library's registry functions: which strategies they return, in which order, default-constructed
+REGISTRIES = {
+    'trend': ['Alligator', 'Apo', 'Aroon', 'Bop', 'Cci', 'Dema', 'GoldenCross', 'Kama', 'Kdj', 'Macd', 'Qstick', 'Smma', 'Trima',
+              'TripleMovingAverageCrossover', 'Tsi', 'Vwma', 'WeightedClose'],
+    'momentum': ['AwesomeOscillator', 'Rsi', 'StochasticRsi', 'TripleRsi'],
+    'volatility': ['BollingerBands', 'SuperTrend', ('SuperTrend', [0, 14], [2.5]), ('SuperTrend', [1, 14], [2.5]), ('SuperTrend', [5, 14], [3.0]),
+                   ('SuperTrend', [5, 10], [3.0]), ('SuperTrend', [5, 7], [3.0])],
+    'volume': ['ChaikinMoneyFlow', 'EaseOfMovement', 'ForceIndex', 'MoneyFlowIndex', 'NegativeVolumeIndex', 'WeightedAveragePrice'],
+    'compound': ['MacdRsi', ('MacdRsi', [12, 26, 9], [20.0, 80.0])],
+    'strategy': ['BuyAndHold'],
+    'extra': [('Envelope', [0, 20], [20.0])],      # NewEnvelopeStrategy(): no registry returns it
+}
+
+
+def check_registries(res, rng, tier):
+    """every strategy handed out by AllStrategies() (default constructors) = the same strategy built with the documented default
+    parameters through the parameterised constructors, which the rest of the check exercises.  Returns (members, bad)."""
+    bad = members = 0
+    for rep in range(2 if tier == 'quick' else 8):
+        o, regime = gen_ohlcv(rng, rng.randrange(260, 330), rng.choice(['walk', 'wide', 'dips', 'zigzag', 'down']))
+        lines = ['g REGISTRY %s' % streams([o[k] for k in 'ohlcv'])]
+        def entry(e):
+            if isinstance(e, tuple):
+                return e
+            return (e,) + tuple(list(x) for x in (SCAT[e]['default'] if e in SCAT else ([], [])))
+        for reg, l in REGISTRIES.items():
+            for i, e in enumerate(l):
+                k, ns, fs = entry(e)
+                lines.append('d_%s_%d %s' % (reg, i, strat_line(k, list(ns), list(fs), o)))
+        go = vlib.run_go(lines)
+        g = go.get('g', 'missing')
+        if not g.startswith('ok '):
+            bad += 1
+            res.violation({'lines': [lines[0].split(' ', 1)[1]], 'problem': 'registry run failed: ' + g[:300]})
+            continue
+        got = collections.defaultdict(list)
+        for part in g[3:].split(';'):
+            head, acts = part.split('=', 1)
+            reg, idx, name = head.split('/', 2)
+            got[reg].append((name, acts))
+        for reg, want_keys in REGISTRIES.items():
+            if len(got[reg]) != len(want_keys):
+                bad += 1
+                res.violation({'lines': [lines[0].split(' ', 1)[1]], 'problem': '%s.AllStrategies() returns %d strategies (%s), expected %d (%s)' % (
+                    reg, len(got[reg]), [n for n, _ in got[reg]], len(want_keys), want_keys)})
+                continue
+            for i, ((name, acts), e) in enumerate(zip(got[reg], want_keys)):
+                members += 1
+                k, dns, dfs = entry(e)
+                d = parse_strat(go.get('d_%s_%d' % (reg, i), 'missing'))
+                want = ','.join(str(a) for a in d['actions']) if d['status'] == 'ok' and d['actions'] else '-'
+                if d['status'] != 'ok' or acts != want:
+                    bad += 1
+                    if bad <= 6:
+                        a1, a2 = acts.split(','), want.split(',')
+                        j = next((t for t in range(min(len(a1), len(a2))) if a1[t] != a2[t]), min(len(a1), len(a2)))
+                        res.violation({'lines': [lines[0].split(' ', 1)[1]], 'registry': reg, 'member': name, 'expected_strategy': k,
+                                       'default_parameters': [dns, dfs],
+                                       'problem': 'the strategy returned by %s.AllStrategies() (%s) differs from %s with the documented default parameters: first difference at action %d (%d vs %d actions)' % (
+                                           reg, name, k, j, len(a1), len(a2))})
+    return members, bad
+
+
 def check_c05(res, tier, replay):
     rng = random.Random(vlib.seed() + 5)
     vlib.apply_obligations(res, 'C05')
@@ -200,6 +263,10 @@ def check_c05(res, tier, replay):
                 break
             res.violation({'case': case_json(small), 'problem': p, 'go_actions': g['actions'][:60], 'n': n, 'warm_up': w,
                            'oracle': 'exactly n actions in {Sell,Hold,Buy}, Hold through the warm-up; only Holds (>= n) for shorter inputs'})
+    if not replay:
+        rg_n, rg_bad = check_registries(res, rng, tier)
+        bad += rg_bad
+        res.coverage['registry_members_compared'] = rg_n
     reused_n = 0
     if not replay:
         # the same contract on an instance that has computed other series before (a backtest runs one instance over many assets)
